@@ -106,6 +106,12 @@ func (propC09) Gen(r *Rng, idx int, tier string) *Scenario {
 					}
 				}
 				if !dup {
+					if f.Callee != nil && (f.Callee.Kind == "execute" || f.Callee.Kind == "handler") && p.First != nil && fr.Bool() {
+						f.Callee.Nth = -1 // the command fails every time it is run, with the same error value
+						if fr.Chance(1, 3) {
+							f.Callee.Form = "uncomparable"
+						}
+					}
 					p.Faults = append(p.Faults, f)
 					break
 				}
@@ -300,6 +306,15 @@ func c09Oracle(v *Verdict, d *DeclSpec, r *OpResult, target string, label string
 		// without handler) must not have executed anything before
 		if r.Exit && len(execs)+len(handlers) > 0 {
 			v.fail("c09:executed-before-exit", "a command ran although the process then exited: "+desc)
+		}
+		if r.Panic != "" {
+			for _, c := range append(append([]Call{}, execs...), handlers...) {
+				if c.Fail != 0 {
+					// the command ran and failed; its error never came back
+					v.fail("c09:command-error-not-returned-unchanged", fmt.Sprintf("Execute/handler returned injected error #%d, and ParseArgs then panicked (%s) instead of returning it: %s", c.Fail, clip(r.Panic, 120), desc))
+					break
+				}
+			}
 		}
 		return
 	}
